@@ -134,12 +134,12 @@ func Corpus() []CorpusScenario {
 			Opt:  Opt{},
 			H: [][]pipeline.Change{
 				creates(svc("ns1", "svc1"), EndpointsRef("ns1", "svc1", "http", 8080, []string{"10.1.0.1"}, nil, 0),
-					svc("ns1", "svc2"), EndpointsRef("ns1", "svc2", "http", 8080, []string{"10.1.1.1"}, nil, 0),
-					ing("ns1", "ing1", map[string]string{"auth-url": "svc://svc2:80/check"}, rule("a.example", pth("/", "svc1"))),
-					ing("ns1", "ing2", nil, rule("b.example", pth("/", "svc2")))),
+					authSvc(), EndpointsRef("ns1", "authsvc", "http", 8000, []string{"10.1.4.1"}, nil, 0),
+					ing("ns1", "ing1", map[string]string{"auth-url": "svc://authsvc:8000/check"}, rule("a.example", pth("/", "svc1"))),
+					ing("ns1", "ing2", nil, rule("b.example", world.IngPath{Path: "/", Type: "Prefix", Service: "authsvc", PortNum: 8000}))),
 				{{Op: pipeline.Delete, Obj: ing("ns1", "ing2", nil)}},
-				creates(ing("ns1", "ing2", nil, rule("b.example", pth("/", "svc2")))),
-				{{Op: pipeline.Delete, Obj: svc("ns1", "svc2")}},
+				creates(ing("ns1", "ing2", nil, rule("b.example", world.IngPath{Path: "/", Type: "Prefix", Service: "authsvc", PortNum: 8000}))),
+				{{Op: pipeline.Delete, Obj: authSvc()}},
 			},
 		},
 		{
@@ -148,11 +148,11 @@ func Corpus() []CorpusScenario {
 			Opt:  Opt{},
 			H: [][]pipeline.Change{
 				creates(svc("ns1", "svc1"), EndpointsRef("ns1", "svc1", "http", 8080, []string{"10.1.0.1"}, nil, 0),
-					svc("ns1", "svc2"), EndpointsRef("ns1", "svc2", "http", 8080, []string{"10.1.1.1"}, nil, 0),
-					ing("ns1", "ing1", map[string]string{"auth-url": "svc://svc2:80/check", "auth-external-placement": "frontend"}, rule("a.example", pth("/", "svc1"))),
-					ing("ns1", "ing2", nil, rule("b.example", pth("/", "svc2")))),
+					authSvc(), EndpointsRef("ns1", "authsvc", "http", 8000, []string{"10.1.4.1"}, nil, 0),
+					ing("ns1", "ing1", map[string]string{"auth-url": "svc://authsvc:8000/check", "auth-external-placement": "frontend"}, rule("a.example", pth("/", "svc1"))),
+					ing("ns1", "ing2", nil, rule("b.example", world.IngPath{Path: "/", Type: "Prefix", Service: "authsvc", PortNum: 8000}))),
 				{{Op: pipeline.Delete, Obj: ing("ns1", "ing2", nil)}},
-				creates(ing("ns1", "ing2", nil, rule("b.example", pth("/", "svc2")))),
+				creates(ing("ns1", "ing2", nil, rule("b.example", world.IngPath{Path: "/", Type: "Prefix", Service: "authsvc", PortNum: 8000}))),
 			},
 		},
 		{
@@ -181,7 +181,8 @@ func Corpus() []CorpusScenario {
 		},
 		{
 			// strict-host: a host without root path borrows the root backend of the default host,
-			// whose service is then deleted
+			// whose service is then deleted (C07/dangling-map-backend-strict-host-borrowed-root-backend-removed,
+			// fixed in /repo 423708d)
 			Name: "11-strict-host-default-host-backend-removed",
 			Opt:  Opt{},
 			H: [][]pipeline.Change{
@@ -263,7 +264,32 @@ func Corpus() []CorpusScenario {
 				{{Op: pipeline.Update, Obj: EndpointsRef("ns1", "svc1", "http", 8080, []string{"10.1.0.1", "10.1.0.2"}, nil, 0)}},
 			},
 		},
+		{
+			// auth-url svc:// on an ingress that only has spec.defaultBackend: the backend of the
+			// authentication service was not pre-built for it (only for the paths of the rules),
+			// so it existed just because another ingress routed to it; that ingress goes away
+			Name: "16-auth-url-svc-on-default-backend-target-removed",
+			Opt:  Opt{},
+			H: [][]pipeline.Change{
+				creates(svc("ns1", "svc1"), EndpointsRef("ns1", "svc1", "http", 8080, []string{"10.1.0.1"}, nil, 0),
+					authSvc(), EndpointsRef("ns1", "authsvc", "http", 8000, []string{"10.1.4.1"}, nil, 0),
+					ingDefault(ing("ns1", "ing1", map[string]string{"auth-url": "svc://authsvc:8000/auth"}), "svc1"),
+					ing("ns1", "ing2", nil, rule("b.example", world.IngPath{Path: "/", Type: "Prefix", Service: "authsvc", PortNum: 8000}))),
+				{{Op: pipeline.Delete, Obj: ing("ns1", "ing2", nil)}},
+				creates(ing("ns1", "ing2", nil, rule("b.example", world.IngPath{Path: "/", Type: "Prefix", Service: "authsvc", PortNum: 8000}))),
+			},
+		},
 	}
+}
+
+func authSvc() client.Object {
+	return world.Service("ns1", "authsvc", world.SvcPort{Name: "http", Port: 8000, TargetPort: intstr.FromInt(8000)})
+}
+
+func ingDefault(i *networking.Ingress, service string) *networking.Ingress {
+	b := world.Backend(service, "", 80)
+	i.Spec.DefaultBackend = &b
+	return i
 }
 
 func ptcp(data map[string]string) client.Object {
